@@ -234,7 +234,8 @@ def traced_call(sb, call, cwd, tmpdir, crash_at=None, capture_logs=False):
             for h in list(root.handlers):
                 root.removeHandler(h)
             root.addHandler(H(level=0))
-            logging.basicConfig = lambda *a, **k: None     # the CLI would add a stderr handler
+            # the CLI's basicConfig would add a stderr handler; keep only its effect on the level
+            logging.basicConfig = lambda *a, **k: root.setLevel(k["level"]) if k.get("level") is not None else None
         tr = Tracer(sb, crash_at=crash_at)
         tr.install()
         tr.active = True
